@@ -8,6 +8,7 @@
 import SnowModel.EvapWindow
 import SnowModel.Snowing1D
 import SnowModel.Snowing2D
+import SnowProofs.Lemmas.SnowingLoop
 import Mathlib.Tactic.NormNum
 
 namespace Snow.EvapLink
@@ -218,6 +219,114 @@ theorem run1DOn_shelf_sampled (p : SnowIn α) (Nz : Nat) (old : Bool) (shelf : L
 theorem run1DOn_shelf (p : SnowIn α) (Nz : Nat) (old : Bool) (shelf : List α) (h : ∀ t, notMet p t) :
     run1DOn p Nz old shelf = run1DOn (shelfOf p) Nz old shelf :=
   run1DOn_shelf_sampled p Nz old shelf (fun _ _ => h _) (fun _ _ _ => h _)
+
+/-! ### prefix before a window that opens later (possibly during the solidification stage) -/
+
+/-- `loopUntil` congruence UP TO THE BREAK: if the second loop is left at index `i` and the step
+functions agree at every index `≤ i`, the first loop is left at the same index in the same state. -/
+theorem loopUntil_congr_upto {σ β : Type} (step1 step2 : Nat → σ → β → σ) (stop : σ → Bool) (xs : List β)
+    (i0 : Nat) (s : σ) (i : Nat) (s' : σ)
+    (h2 : loopUntil step2 stop xs i0 s = (some i, s'))
+    (h : ∀ j, i0 ≤ j → j ≤ i → ∀ s x, step1 j s x = step2 j s x) :
+    loopUntil step1 stop xs i0 s = (some i, s') := by
+  induction xs generalizing i0 s with
+  | nil => simp [loopUntil] at h2
+  | cons x xs ih =>
+    have hge : i0 ≤ i := loopUntil_idx_ge step2 stop (x :: xs) i0 s i s' h2
+    simp only [loopUntil] at h2 ⊢
+    rw [h i0 (Nat.le_refl _) hge]
+    split at h2
+    · rename_i hst
+      simp only [hst, if_true]
+      exact h2
+    · rename_i hst
+      simp only [hst]
+      exact ih (i0 + 1) _ h2 (fun j hj1 hj2 => h j (by omega) hj2)
+
+/-- the state the solidification loop of `run1DOn` starts from (post-nucleation field of the cooling
+state `s`, empty buffer) -/
+def solidInit (p : SnowIn α) (s : Cool1D α) : Solid1D α :=
+  { T := (nucleate1D p s.T).1,
+    w := (nucleate1D p s.T).2.map (· / (p.const.mass_water + p.const.mass_solute)),
+    buf := #[], oob := false, solEnd := none, sg := zero, sigma := #[] }
+
+/-- the solidification loop of `run1DOn` (nucleation at step `iEnd` out of cooling state `s`) after its
+first `m` iterations: field, ice, the rows saved so far, the solidification bookkeeping -/
+def solidAfter (p : SnowIn α) (Nz : Nat) (shelf : List α) (iEnd : Nat) (s : Cool1D α) (m : Nat) : Solid1D α :=
+  iterIdx (solidStep1D p (grid1D p Nz) (saveStride ((grid1D p Nz).NtExp - iEnd)) iEnd
+      ((grid1D p Nz).dt * ofNat' iEnd)) ((shelf.drop iEnd).take m) 0 (solidInit p s)
+
+theorem solidInit_shelfOf (p : SnowIn α) (s : Cool1D α) : solidInit (shelfOf p) s = solidInit p s := rfl
+
+/-- `solidAfter` at `m ≥` the number of remaining samples IS the `sol` of `run1DOn` -/
+theorem solidAfter_full (p : SnowIn α) (Nz : Nat) (shelf : List α) (iEnd : Nat) (s : Cool1D α) (m : Nat)
+    (hm : (shelf.drop iEnd).length ≤ m) :
+    solidAfter p Nz shelf iEnd s m =
+      iterIdx (solidStep1D p (grid1D p Nz) (saveStride ((grid1D p Nz).NtExp - iEnd)) iEnd
+        ((grid1D p Nz).dt * ofNat' iEnd)) (shelf.drop iEnd) 0 (solidInit p s) := by
+  unfold solidAfter
+  rw [List.take_of_length_le hm]
+
+/-- **prefix, both stages**: suppose the SHELF run nucleates at step `iEnd` (cooling state `s`), the
+window is not met at the cooling step times `dt·i`, `i ≤ iEnd`, nor at the first `m` solidification step
+times `dt·iEnd + dt·i`, `i < m`.  Then the VISF run has the same cooling stage (same nucleation step, same
+state: field, hazard, every saved row) and its solidification loop after `m` iterations is in the same
+state as the shelf run's (field, ice fractions, every saved row, solidification bookkeeping). -/
+theorem run1D_prefix_shelf (p : SnowIn α) (Nz : Nat) (old : Bool) (shelf : List α) (iEnd : Nat) (s : Cool1D α)
+    (m : Nat)
+    (hnuc : cool1D (shelfOf p) (grid1D p Nz) old shelf = (some iEnd, s))
+    (hcool : ∀ i, i ≤ iEnd → notMet p ((grid1D p Nz).dt * ofNat' i))
+    (hsol : ∀ i, i < m → notMet p ((grid1D p Nz).dt * ofNat' iEnd + (grid1D p Nz).dt * ofNat' i)) :
+    cool1D p (grid1D p Nz) old shelf = (some iEnd, s) ∧
+    solidAfter p Nz shelf iEnd s m = solidAfter (shelfOf p) Nz shelf iEnd s m := by
+  constructor
+  · unfold cool1D at hnuc ⊢
+    have hstop : coolStop1D (shelfOf p) old = coolStop1D p old := rfl
+    have hinit : coolInit1D (shelfOf p) (grid1D p Nz) = coolInit1D p (grid1D p Nz) := rfl
+    rw [hstop, hinit] at hnuc
+    exact loopUntil_congr_upto _ _ _ shelf 0 _ iEnd s hnuc
+      (fun j _ hj st x => coolStep1D_shelf p _ _ j st x (hcool j hj))
+  · unfold solidAfter
+    have hg : grid1D (shelfOf p) Nz = grid1D p Nz := rfl
+    rw [hg, solidInit_shelfOf]
+    apply iterIdx_congr
+    intro j _ hj st x
+    apply solidStep1D_shelf
+    apply hsol j
+    have := List.length_take_le m (shelf.drop iEnd)
+    omega
+
+/-- one solidification iteration only APPENDS to the saved rows -/
+theorem solidStep1D_buf (p : SnowIn α) (g : Grid1D α) (stride iEnd : Nat) (tNuc : α) (i : Nat)
+    (s : Solid1D α) (x : α) : ∃ r, (solidStep1D p g stride iEnd tNuc i s x).buf = s.buf ++ r := by
+  unfold solidStep1D
+  simp only
+  split
+  · unfold saveRow
+    split
+    · exact ⟨#[_], (Array.append_singleton ..).symm⟩
+    · exact ⟨#[], (Array.append_empty ..).symm⟩
+  · exact ⟨#[], (Array.append_empty ..).symm⟩
+
+theorem iterIdx_solid_buf (p : SnowIn α) (g : Grid1D α) (stride iEnd : Nat) (tNuc : α) (xs : List α)
+    (i0 : Nat) (s : Solid1D α) :
+    ∃ r, (iterIdx (solidStep1D p g stride iEnd tNuc) xs i0 s).buf = s.buf ++ r := by
+  induction xs generalizing i0 s with
+  | nil => exact ⟨#[], by simp [iterIdx]⟩
+  | cons x xs ih =>
+    obtain ⟨r1, h1⟩ := solidStep1D_buf p g stride iEnd tNuc i0 s x
+    obtain ⟨r2, h2⟩ := ih (i0 + 1) (solidStep1D p g stride iEnd tNuc i0 s x)
+    exact ⟨r1 ++ r2, by simp only [iterIdx]; rw [h2, h1, Array.append_assoc]⟩
+
+/-- **the rows saved in the first `m` solidification iterations are the first rows of the
+solidification history** (the whole loop only appends to them) -/
+theorem solidAfter_buf_prefix (p : SnowIn α) (Nz : Nat) (shelf : List α) (iEnd : Nat) (s : Cool1D α) (m : Nat) :
+    ∃ r, (solidAfter p Nz shelf iEnd s (shelf.drop iEnd).length).buf = (solidAfter p Nz shelf iEnd s m).buf ++ r := by
+  unfold solidAfter
+  rw [List.take_of_length_le (Nat.le_refl _)]
+  conv => enter [1, r, 1, 1, 2]; rw [← List.take_append_drop m (shelf.drop iEnd)]
+  rw [iterIdx_append]
+  exact iterIdx_solid_buf _ _ _ _ _ _ _ _
 
 end
 end Snow.EvapLink
